@@ -21,6 +21,7 @@ var verifProg *vs.Program
 //go:noinline
 func archAcquireSpinlock(state *uint32, attemptsBeforeYielding uint32) {
 	if verifProg == nil {
+		vs.AsmConsts = verifAsmConsts
 		verifProg = vs.ParseAsm(verifSpinlockAsm, "archAcquireSpinlock")
 	}
 	var frame [16]byte
